@@ -145,6 +145,7 @@ type SkelOpt struct {
 	Conds    bool            // print if-conditions as source text (otherwise "")
 	Branches bool            // report continue / break as Cont / Brk
 	ArgCalls map[string]bool // calls reported with their argument text: Call "name(args)"
+	Decls    bool            // report `var x T` / `var x = e` of a name in Assigns as Assign "x" "var ..." (where a variable is re-created matters in a loop)
 }
 
 func isLockCall(name string) bool {
@@ -279,7 +280,26 @@ func (f *File) stmt(s ast.Stmt, o SkelOpt) []string {
 		}
 		return nil
 	case *ast.DeclStmt:
-		return f.exprEvents(x, o)
+		out := f.exprEvents(x, o)
+		if gd, ok := x.Decl.(*ast.GenDecl); ok && o.Decls && gd.Tok == token.VAR {
+			for _, sp := range gd.Specs {
+				vs, ok := sp.(*ast.ValueSpec)
+				if !ok {
+					continue
+				}
+				for i, nm := range vs.Names {
+					if !o.Assigns[nm.Name] {
+						continue
+					}
+					rhs := "zero"
+					if i < len(vs.Values) {
+						rhs = "= " + f.Src(vs.Values[i])
+					}
+					out = append(out, "Assign "+Q(nm.Name)+" "+Q("var "+rhs))
+				}
+			}
+		}
+		return out
 	case *ast.DeferStmt:
 		recv, name := lastSel(x.Call.Fun)
 		if name == "Unlock" {
